@@ -31,7 +31,9 @@ REQS = [{"path": "/ok", "accept_encoding": "gzip"}, {"path": "/small", "accept_e
         {"path": "/ok", "accept_encoding": "identity"}, {"path": "/ok"}, {"path": "/nope"},
         {"path": "/getonly", "method": "POST"}, {"path": "/raise_http"}, {"path": "/return_http", "accept_encoding": "gzip"},
         {"path": "/boom"}, {"path": "/ctx"}, {"path": "/redir"}, {"path": "/nb"}, {"path": "/bin", "accept_encoding": "gzip"},
-        {"path": "/ok", "method": "HEAD", "accept_encoding": "gzip"}]
+        {"path": "/ok", "method": "HEAD", "accept_encoding": "gzip"},
+        {"path": "/ok", "accept_encoding": "gzip;q=0"}, {"path": "/ok", "accept_encoding": "identity, gzip;q=0"},
+        {"path": "/ok", "accept_encoding": "*;q=0"}, {"path": "/ok", "accept_encoding": "deflate, gzip;q=0.5"}]
 NATIVE = {'compress': 'gzip', 'client_cache': 'cache', 'stats': 'stats', 'profile': 'profile', 'cookie': 'cookie',
           'url.GetParam': 'getparam', 'form': 'postdata', 'url.ScriptRoot': 'scriptroot'}
 
@@ -58,3 +60,23 @@ def concretise(pc, it):
         if key in f:
             return {'script': 'mw_case.py', 'case': {'mw': mw, 'requests': REQS}}
     return None
+
+
+def refute(pc, unknown_items):
+    """clauses the solver left undecided: bounded native refutation with the request catalogue of the middleware"""
+    from pyvc.run import native
+    done = set()
+    for it in unknown_items:
+        case = concretise(pc, it)
+        if case is None or case['case']['mw'] in done:
+            continue
+        done.add(case['case']['mw'])
+        try:
+            out = native(case['script'], case['case'], repo_root=pc.E.repo.root if pc.E else None)
+        except Exception as e:
+            pc.notes.append('native refutation for %s crashed: %r' % (case['case']['mw'], e))
+            continue
+        if out.get('fails'):
+            it.result = 'refuted'
+            it.by = (it.by or '') + ' unknown -> native refutation'
+            it.extra['native_case'] = case
